@@ -77,6 +77,7 @@ def _algebra(ctx, A, B, a, b, sa, sb, pa, pb, normalized, self_overlap, parent_l
             ov = strand_ok and same_parent and bool(pa & pb)
         got = A.has_overlap(B, match_strand=ms, full_span=fs)
         ctx.eq("has_overlap[ms=%d,fs=%d]" % (ms, fs), got, ov)
+        ctx.true("has_overlap_is_a_bool", type(got) is bool, type(got).__name__)
         # intersection
         res = A.intersection(B, match_strand=ms, full_span=fs)
         if not ov:
@@ -90,7 +91,9 @@ def _algebra(ctx, A, B, a, b, sa, sb, pa, pb, normalized, self_overlap, parent_l
                 exp_c = ov and spa[0] <= spb[0] and spb[1] <= spa[1]
             else:
                 exp_c = ov and pb <= pa
-            ctx.eq("contains[ms=%d,fs=%d]" % (ms, fs), A.contains(B, match_strand=ms, full_span=fs), exp_c)
+            got_c = A.contains(B, match_strand=ms, full_span=fs)
+            ctx.eq("contains[ms=%d,fs=%d]" % (ms, fs), got_c, exp_c)
+            ctx.true("contains_is_a_bool", type(got_c) is bool, type(got_c).__name__)
     # difference (claimed for operands without self-overlap)
     if not self_overlap:
         for ms in (False, True):
@@ -129,7 +132,9 @@ def _algebra(ctx, A, B, a, b, sa, sb, pa, pb, normalized, self_overlap, parent_l
             ),
         }
         for dt, exp in exp_d.items():
-            ctx.eq("distance_%s" % dt.value, A.distance_to(B, dt), exp)
+            got_d = A.distance_to(B, dt)
+            ctx.eq("distance_%s" % dt.value, got_d, exp)
+            ctx.true("distance_is_a_plain_int", type(got_d) is int, type(got_d).__name__)
             ctx.eq("distance_commutes_%s" % dt.value, B.distance_to(A, dt), exp)
 
 
